@@ -419,6 +419,9 @@ def programs(tier):
         P.F((P.O2([((), (("pass",),)), (t, (("pass",),))]), P.R((P.S(("pass", "pass")), P.S(("pass",), t)), bg=("pass",))), bg=("pass",)),
         P.F((P.R((P.S(("pass",)),), bg=("pass",)), P.R((P.O((("pass", "pass"),), ncols=2), P.S(("pass",))), tags=t))),
         P.F((P.S(("pass", "pass", "pass")),)),
+        # @wip (own and inherited): a pending step is accepted as pending_warn - a status whose name differs from
+        # its normalized name, so a report that prints the normalized status no longer mirrors the model
+        P.F((P.S(("pass", "pass"), ("wip",)), P.R((P.S(("pass", "pass")), P.O((("pass",),))), tags=("wip",)))),
     ]
     outs = ("fail", "error", "pending", "undefined", "skip", "abort") if quick else P.NONPASS
     for b in bases:
